@@ -12,14 +12,14 @@ Definition key_of_dkey (d : dkey) : option key :=
   | DErr => Some KErr
   | DNoDefer => Some KNone
   | DShadowedErr => Some KAlways
-  | DRollbackFirst | DNA => None
+  | DRollbackFirst | DReleaseAlways | DNA => None
   end.
 
 (* one output file, written through one staging helper *)
 Definition single_output (r : frow) : bool :=
   match f_helper r with
   | HStaged | HPdfStaged | HCut | HNewFile => true
-  | HMulti | HMultiRollback | HReadOnly | HInPlace => false
+  | HMulti | HMultiRollback | HMultiReserve | HReadOnly | HInPlace => false
   end.
 
 Definition name_in (l : list (string * string)) (r : frow) : bool :=
@@ -31,7 +31,7 @@ Definition name_in (l : list (string * string)) (r : frow) : bool :=
    Every other single-output function must be keyed on a completion flag. *)
 Definition panic_unsafe : list (string * string) :=
   [ ("pdfcpu", "WriteReader"); ("pdfcpu", "CopyFile"); ("pdfcpu", "Write");
-    ("api", "writeMultiFillOutputWith") ].
+    ("api", "writeMultiFillOutputWith"); ("api", "writeAttachmentToPath") ].
 (* no function is unsafe when the body just returns an error *)
 Definition error_unsafe : list (string * string) := [].
 
@@ -83,6 +83,32 @@ Proof.
     intros r Hin Htx. rewrite forallb_forall in Hall. specialize (Hall r Hin). rewrite Htx in Hall. cbn in Hall.
     apply dkey_eqb_eq. exact Hall.
   - assert (Hall : forallb (fun r => implb (String.eqb (f_name r) "writeMultiFillOutputWith")
+                                        (dkey_eqb (f_key r) DFlag || dkey_eqb (f_key r) DErr || dkey_eqb (f_key r) DNoDefer)) table = true)
+      by (vm_compute; reflexivity).
+    intros r Hin Hname. rewrite forallb_forall in Hall. specialize (Hall r Hin). rewrite Hname in Hall. cbn in Hall.
+    apply orb_true_iff in Hall. destruct Hall as [Hall|Hall]; [apply orb_true_iff in Hall; destruct Hall as [Hall|Hall]|];
+      apply dkey_eqb_eq in Hall; rewrite Hall; eexists; (split; [reflexivity|]); (split; [discriminate|]); intros fin Hf.
+    + left. reflexivity.
+    + right. split; [discriminate|exact Hf].
+    + right. split; [discriminate|exact Hf].
+Qed.
+
+(* attachment extraction: the reserving function hands the reservations made so far to its caller on every
+   error return and the caller releases them (checked by genc01, which fails otherwise); the per-attachment
+   writer is an error- and fault-safe stagedOutput user *)
+Lemma attachment_rows_proof :
+  existsb (fun r => String.eqb (f_name r) "writeAttachments" && helper_eqb (f_helper r) HMultiReserve
+                    && dkey_eqb (f_key r) DReleaseAlways) table = true /\
+  (forall r, In r table -> helper_eqb (f_helper r) HMultiReserve = true -> f_key r = DReleaseAlways) /\
+  (forall r, In r table -> f_name r = "writeAttachmentToPath" ->
+     exists k, key_of_dkey (f_key r) = Some k /\ k <> KAlways /\ forall fin, fin <> CPanic -> safe_for k fin).
+Proof.
+  split; [vm_compute; reflexivity|split].
+  - assert (Hall : forallb (fun r => implb (helper_eqb (f_helper r) HMultiReserve) (dkey_eqb (f_key r) DReleaseAlways)) table = true)
+      by (vm_compute; reflexivity).
+    intros r Hin Hh. rewrite forallb_forall in Hall. specialize (Hall r Hin). rewrite Hh in Hall. cbn in Hall.
+    apply dkey_eqb_eq. exact Hall.
+  - assert (Hall : forallb (fun r => implb (String.eqb (f_name r) "writeAttachmentToPath")
                                         (dkey_eqb (f_key r) DFlag || dkey_eqb (f_key r) DErr || dkey_eqb (f_key r) DNoDefer)) table = true)
       by (vm_compute; reflexivity).
     intros r Hin Hname. rewrite forallb_forall in Hall. specialize (Hall r Hin). rewrite Hname in Hall. cbn in Hall.
